@@ -69,3 +69,92 @@ Proof.
   apply (lumping_single_locus_bounded [2; 1]); simpl; try lia; auto.
 Qed.
 Print Assumptions C04_instance.
+
+(* ------------------------------------------------------------------------------------------------
+   UNBOUNDED lumping for the one-locus lineage-counting state space (proofs/LumpingAllN.v; no
+   reflection, no bound on anything).
+
+   C04_lumping_single_locus_LC_unbounded.  Take any parameter record P over the reals (any model -
+   Kingman, Beta, Dirac -, any migration rates and time scales), any sample configuration [config]
+   (so: any number of demes [length config] and any sample size [sum_nat config]) and any labelled
+   state x that the labelled structured coalescent of model/Labelled.v can reach from the initial
+   labelled state [linit config].  Then, for EVERY target state t of the code's state space, the rate
+   that the code's transition function [transit] assigns to the jump  (projection of x) -> t  equals
+   the total rate of all labelled events at x whose outcome projects to t.  That is the (strong)
+   lumpability condition of the labelled process with respect to the lineage-counting projection
+   [pi1 true], together with the statement that the lumped chain is the one the code builds.
+
+   C04_transit_lc_rate_all_n.  The rate the code assigns between ANY two lineage-counting states
+   (count vectors c, c' of any length and any total) is the specification [lumped_rate]:
+   c_p * mig p q for a move of one block from p to q, binom(c_d, k) * lam(c_d, k) / tscale d for a
+   k-merger in deme d, and 0 otherwise (see lumped_rate_move/_merge/_other).
+
+   C04_subsets_of_size_count.  The model of itertools.combinations used by the code enumerates
+   exactly binom(|l|, k) subsets of size k - the multiplicity that turns the per-subset merger rate
+   into the lumped rate. *)
+From PG Require Import proofs.LumpingAllN.
+From PG Require model.PhaseType.
+
+Theorem C04_lumping_single_locus_LC_unbounded :
+  forall (P : params (T:=R)) (config : list nat) (x : lstate),
+    reach (targets_of (levents1 (length config))) (linit config) x ->
+  forall t : state,
+    rate_of (transit OpsR P (pi1 true (length config) (sum_nat config) x)) t =
+    rsum_over (fun ey => if state_eqb (pi1 true (length config) (sum_nat config) (snd ey)) t
+                         then erate OpsR P (fst ey) else 0%R)
+              (levents1 (length config) x).
+Proof. exact lumping_single_locus_LC_unbounded. Qed.
+Print Assumptions C04_lumping_single_locus_LC_unbounded.
+
+Theorem C04_transit_lc_rate_all_n :
+  forall (P : params (T:=R)) (c c' : list nat),
+    rate_of (transit OpsR P (lc_state c)) (lc_state c') = lumped_rate P c c'.
+Proof. exact transit_lc_rate. Qed.
+Print Assumptions C04_transit_lc_rate_all_n.
+
+Theorem C04_subsets_of_size_count :
+  forall (A : Type) (l : list A) (k : nat),
+    Z.of_nat (length (PG.model.PhaseType.subsets_of_size l k)) = binom (length l) k.
+Proof. exact @subsets_of_size_count. Qed.
+Print Assumptions C04_subsets_of_size_count.
+
+(* ------------------------------------------------------------------------------------------------
+   Symbolic rates (model/LinForm.v, proofs/SymbolicLumping.v).  The model of the state-space
+   construction is run ONCE with the population time scales, migration rates and the recombination
+   rate as SYMBOLS (linear forms over atoms); the lumping criterion is decided on the symbolic rates
+   and transported, by parametricity of the model in its operations record, to EVERY real valuation
+   of those rates: on the sample-size/deme groups [groups1_sym] (1 deme n<=7, 2 demes n<=6, 3 demes
+   n<=5, 4 demes n<=4; Kingman, Beta and Dirac instances of [models]; lineage- AND block-counting)
+   and [groups2_sym] (two loci; 1 deme n<=4, 2 demes n<=3, 3 demes n=2; every number of unlinked
+   lineages), the chain built by the code's algorithm is the lumping of the labelled process for all
+   population sizes, migration matrices and recombination rates at once. *)
+From PG Require Import model.LinForm proofs.SymbolicLumping.
+
+Theorem C04_lumping_single_locus_every_rate_valuation :
+  forall (config : list nat) (P : params (T:=R)),
+    In (sum_nat config, length config) groups1_sym ->
+    (exists m, In m models /\ p_model P = cmodel_map Q2R m) ->
+    length (p_tscale P) = length config -> length (p_mig P) = length config ->
+    (forall row, In row (p_mig P) -> length row = length config) ->
+    lumping_claim_R P 1 (length config) (sum_nat config)
+                    (pi1 (p_lc P) (length config) (sum_nat config)) (levents1 (length config)) (linit config).
+Proof. exact lumping_single_locus_real_params. Qed.
+Print Assumptions C04_lumping_single_locus_every_rate_valuation.
+
+Theorem C04_lumping_two_loci_every_rate_valuation :
+  forall (config : list nat) (n_unlinked : nat) (P : params (T:=R)),
+    In (sum_nat config, length config) groups2_sym -> n_unlinked <= sum_nat config ->
+    p_model P = Kingman -> p_lc P = true ->
+    length (p_tscale P) = length config -> length (p_mig P) = length config ->
+    (forall row, In row (p_mig P) -> length row = length config) ->
+    lumping_claim_R P 2 (length config) (sum_nat config)
+                    (pi_2 (length config)) (levents2 (length config)) (linit2 config n_unlinked).
+Proof. exact lumping_two_locus_real_params. Qed.
+Print Assumptions C04_lumping_two_loci_every_rate_valuation.
+
+Example C04_symbolic_groups :
+  groups1_sym = [(2,1); (3,1); (4,1); (5,1); (2,2); (3,2); (4,2); (5,2); (2,3); (3,3); (4,3); (5,3);
+                 (6,1); (7,1); (6,2); (2,4); (3,4); (4,4)]%nat /\
+  groups2_sym = [(2,1); (3,1); (4,1); (2,2); (3,2); (2,3)]%nat.
+Proof. split; reflexivity. Qed.
+Print Assumptions C04_symbolic_groups.
